@@ -227,6 +227,7 @@ pub assume_specification<T, const N: usize> [<[T; N] as std::convert::AsRef<[T]>
 // `__m128i` / `__m256i` are modelled as 16 / 32 bytes in memory order (byte 0 = least significant byte of the register).
 // Raw-pointer loads and stores are rewritten by rule R10 into `load*/store*` on the array the pointer was derived from;
 // their preconditions are the in-bounds conditions of the original pointer arithmetic.
+// @arch x86_64
 pub mod simd {
     use vstd::prelude::*;
     pub use crate::vprelude::byte_of;
@@ -344,5 +345,64 @@ pub mod simd {
     #[verifier::external_body]
     pub fn _mm256_shuffle_epi8(a: __m256i, b: __m256i) -> (r: __m256i)
         ensures forall|n: int| 0 <= n < 32 ==> #[trigger] r.b@[n] == if b.b@[n] & 0x80 != 0 { 0u8 } else { a.b@[(n / 16) * 16 + (b.b@[n] & 0x0f) as int] }
+    { unimplemented!() }
+}
+
+// ---------------------------------------------------------------------------------------------------------------------
+// R10 model of the seven aarch64 Neon intrinsics the crate uses (TRUSTED: ARM's documented semantics, byte-wise).
+// `uint8x16_t` is modelled as its 16 lanes in memory order (lane n = byte n of what `vld1q_u8` reads / `vst1q_u8` writes).
+// `vld1q_u8(p.add(off))` / `vst1q_u8(p.add(off), v)` with `p: *mut u8 = a.as_mut_ptr()` are rewritten by rule R10 into
+// `nload(a, off)` / `nstore(a, off, v)` on the array the pointer was derived from; `off` is the BYTE offset of the original
+// pointer arithmetic and the precondition is its in-bounds condition (16 bytes starting at `off` lie inside the 64).
+// @arch aarch64
+pub mod neon {
+    use vstd::prelude::*;
+    pub use crate::vprelude::byte_of;
+    #[derive(Clone, Copy)]
+    pub struct uint8x16_t { pub b: [u8; 16] }
+
+    // vld1q_u8(p.add(off)) with p = a.as_mut_ptr()
+    #[verifier::external_body]
+    pub fn nload(a: &[u8; 64], off: usize) -> (r: uint8x16_t)
+        requires off + 16 <= 64
+        ensures forall|n: int| 0 <= n < 16 ==> #[trigger] r.b@[n] == a@[off + n]
+    { unimplemented!() }
+    // vst1q_u8(p.add(off), v) with p = a.as_mut_ptr()
+    #[verifier::external_body]
+    pub fn nstore(a: &mut [u8; 64], off: usize, v: uint8x16_t)
+        requires off + 16 <= 64
+        ensures forall|j: int| 0 <= j < 64 ==> #[trigger] final(a)@[j] == (if off <= j < off + 16 { v.b@[j - off] } else { old(a)@[j] })
+    { unimplemented!() }
+    // vld1q_u8(std::ptr::from_ref::<u128>(p).cast::<u8>()): the 16 bytes of a u128 on a little-endian machine
+    #[verifier::external_body]
+    pub fn nload_u128(p: &u128) -> (r: uint8x16_t)
+        ensures forall|n: int| 0 <= n < 16 ==> #[trigger] r.b@[n] == byte_of(*p, n)
+    { unimplemented!() }
+
+    // DUP: every lane = the scalar
+    #[verifier::external_body]
+    pub fn vdupq_n_u8(value: u8) -> (r: uint8x16_t)
+        ensures forall|n: int| 0 <= n < 16 ==> #[trigger] r.b@[n] == value
+    { unimplemented!() }
+    #[verifier::external_body]
+    pub fn vandq_u8(a: uint8x16_t, b: uint8x16_t) -> (r: uint8x16_t)
+        ensures forall|n: int| 0 <= n < 16 ==> #[trigger] r.b@[n] == a.b@[n] & b.b@[n]
+    { unimplemented!() }
+    #[verifier::external_body]
+    pub fn veorq_u8(a: uint8x16_t, b: uint8x16_t) -> (r: uint8x16_t)
+        ensures forall|n: int| 0 <= n < 16 ==> #[trigger] r.b@[n] == a.b@[n] ^ b.b@[n]
+    { unimplemented!() }
+    // USHR: logical right shift of each 8-bit lane (no bits cross lanes); specified for the one shift count the crate uses.
+    // (std's signature is `vshrq_n_u8::<const N: i32>(a)` called through the legacy const-argument form `vshrq_n_u8(a, 4)`;
+    //  the model takes the count as an ordinary argument.)
+    #[verifier::external_body]
+    pub fn vshrq_n_u8(a: uint8x16_t, n_: i32) -> (r: uint8x16_t)
+        requires n_ == 4
+        ensures forall|n: int| 0 <= n < 16 ==> #[trigger] r.b@[n] == a.b@[n] >> 4
+    { unimplemented!() }
+    // TBL (one table register): lane n = t[idx[n]] if idx[n] < 16, else 0
+    #[verifier::external_body]
+    pub fn vqtbl1q_u8(t: uint8x16_t, idx: uint8x16_t) -> (r: uint8x16_t)
+        ensures forall|n: int| 0 <= n < 16 ==> #[trigger] r.b@[n] == if idx.b@[n] < 16 { t.b@[idx.b@[n] as int] } else { 0u8 }
     { unimplemented!() }
 }
